@@ -28,7 +28,7 @@ let accept (req : json) : json =
   let so (i : int) : int =
     match step_over (tz pcs) (tz ops) fuel (z_of_small i) with Some j -> small_of_z j | None -> failwith "model: step_over does not return within the fuel" in
   let sout (i : int) : int =
-    match step_out (tz pcs) (tz sps) (tz ops) (tz rets) fuel (z_of_small i) with Some j -> small_of_z j | None -> failwith "model: step_out does not return within the fuel" in
+    match step_out (tz sps) (tz ops) fuel (z_of_small i) with Some j -> small_of_z j | None -> failwith "model: step_out does not return within the fuel" in
   let items = Array.of_list (to_list (field req "items")) in
   let nitems = Array.length items in
   (* next observed instruction index at or after item k *)
@@ -178,7 +178,8 @@ let step_cmd (req : json) : json =
   let r = match to_str (field req "kind") with
     | "stepIn" -> Some (exec_in (tz ops) i)
     | "next" -> step_over (tz pcs) (tz ops) fuel i
-    | "stepOut" -> step_out (tz pcs) (tz sps) (tz ops) (tz rets) fuel i
+    | "stepOut" -> step_out (tz sps) (tz ops) fuel i
+    | "stepOut_pinned" -> step_out_pinned (tz pcs) (tz sps) (tz ops) (tz rets) fuel i
     | k -> failwith ("unknown step kind " ^ k) in
   Obj [ ("lands", jopt jz r) ]
 
